@@ -135,9 +135,20 @@ func (s *v6Server) GetLeases(flags GetLeasesFlags) (leases []*dhcpsvc.Lease) {
 	return leases
 }
 
-// getLeasesRef returns the actual leases slice.  For internal use only.
-func (s *v6Server) getLeasesRef() []*dhcpsvc.Lease {
-	return s.leases
+// getLeasesRef returns a deep copy of all leases, taken under the leases lock,
+// for storing them in the database.  The leases and the slice itself are
+// changed by the DHCP handlers and the HTTP API under that lock, so neither may
+// be read without it.  It must not be called with the lock held.
+func (s *v6Server) getLeasesRef() (leases []*dhcpsvc.Lease) {
+	s.leasesLock.Lock()
+	defer s.leasesLock.Unlock()
+
+	leases = make([]*dhcpsvc.Lease, 0, len(s.leases))
+	for _, l := range s.leases {
+		leases = append(leases, l.Clone())
+	}
+
+	return leases
 }
 
 // FindMACbyIP implements the [Interface] for *v6Server.
@@ -230,9 +241,11 @@ func (s *v6Server) AddStaticLease(l *dhcpsvc.Lease) (err error) {
 	}
 
 	s.addLease(l)
-	s.conf.notify(LeaseChangedDBStore)
 	s.leasesLock.Unlock()
 
+	// Store the database after the lock has been released, since storing it
+	// takes the lock to copy the leases.
+	s.conf.notify(LeaseChangedDBStore)
 	s.conf.notify(LeaseChangedAddedStatic)
 
 	return nil
@@ -288,8 +301,11 @@ func (s *v6Server) RemoveStaticLease(l *dhcpsvc.Lease) (err error) {
 		s.leasesLock.Unlock()
 		return err
 	}
-	s.conf.notify(LeaseChangedDBStore)
 	s.leasesLock.Unlock()
+
+	// Store the database after the lock has been released, since storing it
+	// takes the lock to copy the leases.
+	s.conf.notify(LeaseChangedDBStore)
 	s.conf.notify(LeaseChangedRemovedStatic)
 	return nil
 }
@@ -396,9 +412,8 @@ func (s *v6Server) reserveLease(mac net.HardwareAddr) *dhcpsvc.Lease {
 func (s *v6Server) commitDynamicLease(l *dhcpsvc.Lease) {
 	l.Expiry = time.Now().Add(s.conf.leaseTime)
 
-	s.leasesLock.Lock()
+	// Storing the database takes the leases lock to copy the leases.
 	s.conf.notify(LeaseChangedDBStore)
-	s.leasesLock.Unlock()
 	s.conf.notify(LeaseChangedAdded)
 }
 
